@@ -144,6 +144,10 @@ func runQueryProp(prop string, seed int64, tier string, out string) {
 				if strings.Contains(err.Error(), "syntax error") || strings.Contains(err.Error(), "harness:") {
 					panic("harness: generated query is not valid: " + q.sql + ": " + err.Error())
 				}
+			} else if view.RecordLen() > 2500 {
+				// a result this large makes the Coq literal unwieldy: not compared (counted)
+				meta.Distribution["dropped:result>2500-rows"]++
+				continue
 			} else {
 				rows := viewRows(view)
 				nrows = len(rows)
